@@ -332,7 +332,8 @@ def plan_complexity(plan):
     return len(json.dumps(plan))
 
 
-def process_candidates(prop, engine, sim, cands, outdir, seed, tier, max_new=4):
+def process_candidates(prop, engine, sim, cands, outdir, seed, tier, max_new=4,
+                       variant=None):
     """Known-finding matching, gating, minimisation, replay. Returns
     (violations, known_hits, messages)."""
     known = load_known()
@@ -383,6 +384,7 @@ def process_candidates(prop, engine, sim, cands, outdir, seed, tier, max_new=4):
             replay['bytes'] = rf['bytes']
             replay['frozen'] = 1
         doc = dict(property=prop, engine=engine, seed=seed, tier=tier,
+                   variant=variant or os.path.basename(os.path.dirname(sim)),
                    violation=dict(cls=cls, signature=sig,
                                   detail=[x.get('detail') for x in rf['cands']
                                           if x.get('sig') == sig][:1],
@@ -508,7 +510,7 @@ def chan_coverage(summary, sim, samples, prop):
                        'surfaces read no clock, so there is no simulated wall time',
         distinct_nontrivial=summary['distinct_effective'],
         rule='one evaluation = one decoder entry point run on one faulted stream. '
-             'Plans are enumerated (every truncation, 7 byte / 6 word / 14 varint '
+             'Plans are enumerated (every truncation, 7 byte / 11 word / 24 varint '
              'patterns at every offset, 360 header rewrites per small substrate; '
              'every tamper event x 4 replacements of curated substrates) and seeded '
              '(multi-site swarm plans, splices). A case is non-trivial when the fault '
@@ -545,22 +547,30 @@ def chan_coverage(summary, sim, samples, prop):
     return cov
 
 
+def chan_plans_of(sim, tier, seed, idxs):
+    r = run_sim(sim, ['chan', 'planof', '--tier', tier, '--seed', str(seed),
+                      '--idx', ','.join(str(i) for i in idxs), '--repo', REPO],
+                timeout=1800)
+    if r.returncode != 0:
+        return []
+    out = []
+    for line in r.stdout.strip().split('\n'):
+        if line.startswith('{'):
+            p = json.loads(line)
+            p['tier'] = tier
+            out.append(p)
+    return out
+
+
 def chan_samples(sim, summary, tier, seed, outdir, n=4):
     total = summary['total_planned']
     idxs = sorted(set([1, total // 3, (2 * total) // 3, total - 1]))[:n]
-    plans = []
-    for i in idxs:
-        r = run_sim(sim, ['chan', 'planof', '--tier', tier, '--seed', str(seed),
-                          '--idx', str(i), '--repo', REPO], timeout=600)
-        if r.returncode == 0 and r.stdout.strip():
-            p = json.loads(r.stdout.strip().split('\n')[-1])
-            p['tier'] = tier
-            plans.append((i, p))
+    plans = chan_plans_of(sim, tier, seed, idxs)
     out = []
     if plans:
-        res = exec_plans(sim, 'chan', [p for _, p in plans], outdir, 'samples',
+        res = exec_plans(sim, 'chan', plans, outdir, 'samples',
                          nworkers=min(4, len(plans)))
-        for (i, p), r in zip(plans, res):
+        for i, p, r in zip(idxs, plans, res):
             for op in p.get('faults', []):
                 if 'src' in op:
                     op['src'] = op['src'][:32] + '...'
@@ -570,6 +580,68 @@ def chan_samples(sim, summary, tier, seed, outdir, n=4):
                                           alloc_peak=x['alloc_peak'])
                                      for x in r.get('results', [])]))
     return out
+
+
+def valgrind_pass(prop, tier, seed, total, outdir, nplans=300):
+    """Memcheck over a fixed sample of plans on the un-sanitized -O2 build:
+    use of an uninitialised value in a branch or address is UB that ASan/UBSan
+    do not see. Returns (candidates, stats)."""
+    sim, _ = build('plain')
+    step = max(1, total // nplans)
+    idxs = list(range(1, total, step))[:nplans]
+    plans = chan_plans_of(sim, tier, seed, idxs)
+    if not plans:
+        return [], dict(plans=0)
+    d = fresh_dir(os.path.join(outdir, 'valgrind'))
+    pf = os.path.join(d, 'plans.jsonl')
+    with open(pf, 'w') as f:
+        for p in plans:
+            f.write(json.dumps(p) + '\n')
+    logdir = fresh_dir(os.path.join(d, 'logs'))
+    cmd = ['valgrind', '-q', '--trace-children=yes', '--error-limit=no',
+           '--num-callers=16', '--undef-value-errors=yes', sim, 'chan', 'exec',
+           '--plans', pf, '--out', os.path.join(d, 'res.jsonl'), '--workers', '1',
+           '--logdir', logdir, '--repo', REPO]
+    t0 = time.time()
+    r = subprocess.run(cmd, cwd=VERIF, env=sim_env(), capture_output=True, text=True,
+                       timeout=7200)
+    text = r.stderr
+    for fn in sorted(os.listdir(logdir)):
+        text += open(os.path.join(logdir, fn), errors='replace').read()
+    cands = []
+    cur = None
+    blocks = []
+    block = None
+    for line in text.split('\n'):
+        if line.startswith('SIM-PLAN '):
+            cur = int(line.split()[1])
+            continue
+        if line.startswith('=='):
+            body = line.split('== ', 1)[1] if '== ' in line else ''
+            if body and not body.startswith(' ') and not body.startswith('at ') \
+                    and not body.startswith('by '):
+                block = dict(plan=cur, head=body.strip(), frames=[])
+                blocks.append(block)
+            elif block is not None and ('at 0x' in body or 'by 0x' in body):
+                block['frames'].append(body.strip())
+    interesting = ('Conditional jump', 'Use of uninitialised', 'Invalid read',
+                   'Invalid write', 'Syscall param', 'Invalid free', 'Mismatched')
+    for b in blocks:
+        if not b['head'].startswith(interesting):
+            continue
+        fr = [f for f in b['frames'] if 'draco::' in f]
+        if not fr:
+            continue   # harness / libc only: not Draco's
+        fn = fr[0].split(': ', 1)[1] if ': ' in fr[0] else fr[0]
+        fn = strip_templates(fn.split(' (')[0])
+        if b['plan'] is None or b['plan'] >= len(plans):
+            continue
+        cands.append({'t': 'cand', 'prop': prop, 'class': 'valgrind',
+                      'sig': 'valgrind:%s@%s' % (b['head'].split(' of size')[0], fn),
+                      'detail': b['head'] + ' | ' + ' | '.join(b['frames'][:4]),
+                      'plan': plans[b['plan']]})
+    return cands, dict(plans=len(plans), wall_s=round(time.time() - t0, 1),
+                       error_blocks=len(blocks), draco_errors=len(cands))
 
 
 def check_chan(prop, tier, seed):
@@ -594,8 +666,12 @@ def check_chan(prop, tier, seed):
         args = ['chan', 'batch', '--tier', tier, '--seed', str(seed), '--out',
                 os.path.join(d, 'sum.json'), '--logdir', d, '--workers',
                 str(workers()), '--repo', REPO]
+        if v == 'dbg':
+            # Debug assertions kill the worker: many deaths are expected there.
+            args += ['--max-deaths', '20000']
         if budget:
-            args += ['--budget', str(budget / len(variants))]
+            args += ['--budget', str(budget * (0.7 if v == variants[0] else 0.3)
+                                     if len(variants) > 1 else budget)]
         r = run_sim(sim, args, timeout=max(3600, budget * 2))
         if r.returncode != 0:
             raise MachineryFault('chan batch failed (%s): %s' % (v, r.stderr[-3000:]))
@@ -619,10 +695,36 @@ def check_chan(prop, tier, seed):
         for k, n in known.items():
             all_known[k] = all_known.get(k, 0) + n
     main = summaries[0]
+    vg_stats = None
+    if tier == 'thorough' and prop == 'C02':
+        vg_cands, vg_stats = valgrind_pass(prop, tier, seed, main['total_planned'], outdir)
+        # Valgrind findings are reported with the plan that triggered them; the
+        # replay is the plan itself (re-run under valgrind to see the report).
+        known = load_known()
+        seen = set()
+        for c in vg_cands:
+            if c['sig'] in seen:
+                continue
+            seen.add(c['sig'])
+            k = match_known(known, prop, c['sig'])
+            if k is not None:
+                all_known[c['sig']] = all_known.get(c['sig'], 0) + 1
+                continue
+            os.makedirs(os.path.join(VERIF, 'replays'), exist_ok=True)
+            h = hashlib.sha256(c['sig'].encode()).hexdigest()[:8]
+            path = os.path.join(VERIF, 'replays', '%s-%d-valgrind-%s.json' % (prop, seed, h))
+            json.dump(dict(property=prop, engine='chan', variant='plain', seed=seed,
+                           tier=tier, tool='valgrind',
+                           violation=dict(cls='valgrind', signature=c['sig'],
+                                          detail=[c['detail']], hash=None),
+                           plan=c['plan']), open(path, 'w'), indent=1)
+            all_viol.append(dict(sig=c['sig'], cls='valgrind', replay=path, variant='plain'))
     samples = chan_samples(sims[variants[0]], main, tier, seed, os.path.join(outdir, 'samples'))
     cov = chan_coverage(main, sims[variants[0]], samples, prop)
     cov['determinism_audit_runs'] = det_runs
     cov['builds'] = variants
+    if vg_stats is not None:
+        cov['valgrind_memcheck_pass'] = vg_stats
     if len(summaries) > 1:
         cov['additional_builds'] = [dict(variant=s['variant'], runs=s['runs'],
                                          calls=s['calls'], deaths=s['deaths'])
